@@ -28,7 +28,15 @@ def cases(dim, s1, s2, r):
                 b[j] = b[j] + 0.75
                 out.append((f"one-diff-{j}", a, b, False))
         else:
-            out.append(("same-geometry", a, C.cart_to_stored(s2, p), None))
+            b_ = C.cart_to_stored(s2, p)
+            out.append(("same-geometry", a, b_, None))
+            # the first operand obtained from the second by the LIBRARY's own conversion: == usually holds bit for bit there, which
+            # exercises the laws "== implies isclose" (also with zero tolerances) and "!= is not ==" on the True side
+            try:
+                conv = getattr(C.obj_vec("g", s2, b_), "to_" + "".join(C.signames(s1)))()
+                out.append(("library-converted", [float(x) for x in C.stored(conv)], b_, None))
+            except Exception:  # noqa: BLE001
+                pass
         for ncomp, tag in ((1, "one"), (2, "several"), (dim, "all")):
             q = list(p)
             for j in range(ncomp):
@@ -257,13 +265,14 @@ def search(ctx, broken):
                 u, v = C.obj_vec("g", s1, a), C.obj_vec("m", s2, b)
                 e, n = bool(u == v), bool(u != v)
                 ok = (e != n) and bool(u == u) and (bool(v == u) == e if s1 == s2 else True) and bool(u.isclose(u)) \
-                    and (not e or bool(u.isclose(v))) \
+                    and (not e or bool(u.isclose(v))) and (not e or bool(u.isclose(v, rtol=0.0, atol=0.0))) \
                     and (not bool(u.isclose(v, rtol=1e-5, atol=1e-8)) or bool(u.isclose(v, rtol=1e-3, atol=1e-6)))
                 if not ok:
                     f = failing(dim, "law", "search", "g", s1, a, "m", s2, b)
                     f["code"] += f"""
 assert bool(u == u) and bool(u.isclose(u)), "not reflexive"
 assert (not e) or bool(u.isclose(v)), "== does not imply isclose"
+assert (not e) or bool(u.isclose(v, rtol=0.0, atol=0.0)), "== does not imply isclose with zero tolerances (isclose compares other coordinates than ==)"
 assert (not bool(u.isclose(v))) or bool(u.isclose(v, rtol=1e-3, atol=1e-6)), "isclose not monotone"
 """
                     out.append(f)
